@@ -67,6 +67,7 @@ Definition check_tcv (ld : desc) (rd : option desc) (t : tcv) : result verdict :
               end
           | TAnswer =>                                           (* step 5.3.3 *)
               if odir_eqb (sc_dir m) (t_dir t) then Ok NotNeeded else Ok Needed
+          | TPranswer => Ok NotNeeded                            (* the switch's default *)
           end
       end
   end.
